@@ -55,14 +55,25 @@ ExpandRep(nd) ==
   ELSE IF nd.min = 0 THEN OptNest(x, nd.max, g)
   ELSE Cat(Copies(x, nd.min) \o <<OptNest(x, nd.max - nd.min, g)>>)
 
-\* x+ from the table of x, built from the last position down (row i needs rows e > i)
-RECURSIVE PlusFrom(_, _, _, _)
-PlusFrom(tx, g, i, acc) ==
-  LET contrib(e) == IF e > i THEN (IF g THEN acc[e] \o <<e>> ELSE <<e>> \o acc[e])
-                    ELSE <<i>>      \* an empty iteration ends the loop
-      row  == Dedup(FlattenSeq([k \in 1..Len(tx[i]) |-> contrib(tx[i][k])]))
+\* x+ from the table of x.  The engine compiles x+ as  L: x; N: split(L, out)  and explores
+\* threads in priority order with one visit per instruction and position:
+\*  - after an iteration that consumed input and ends at e, control is at N(e): (greedy) try the
+\*    body again, then leave at e.  An EMPTY iteration from there comes back to N(e), which is
+\*    already visited: that thread dies (it contributes nothing; leaving at e is accounted for
+\*    after all alternatives of the body).
+\*  - on the first entry at position i (not through N) an empty iteration reaches N(i) for the
+\*    first time: the body (L) is already visited, so the loop is left at i AT THAT PRIORITY,
+\*    before the remaining alternatives of x.
+\* nx[e] = ends reachable from N(e) in priority order; built from the last position down.
+RECURSIVE NextFrom(_, _, _, _)
+NextFrom(tx, g, i, acc) ==
+  LET body == Dedup(FlattenSeq([k \in 1..Len(tx[i]) |-> IF tx[i][k] > i THEN acc[tx[i][k]] ELSE <<>>]))
+      row  == IF g THEN Dedup(body \o <<i>>) ELSE Dedup(<<i>> \o body)
       acc2 == (i :> row) @@ acc
-  IN IF i = 0 THEN acc2 ELSE PlusFrom(tx, g, i - 1, acc2)
+  IN IF i = 0 THEN acc2 ELSE NextFrom(tx, g, i - 1, acc2)
+PlusFrom(tx, g, n, unused) ==
+  LET nx == NextFrom(tx, g, n, <<>>)
+  IN Tab([i \in 0..n |-> Dedup(FlattenSeq([k \in 1..Len(tx[i]) |-> IF tx[i][k] > i THEN nx[tx[i][k]] ELSE <<i>>]))])
 
 CatTab(ta, tb, P) == Tab([i \in P |-> Dedup(FlattenSeq([k \in 1..Len(ta[i]) |-> tb[ta[i][k]]]))])
 
